@@ -122,6 +122,8 @@ def gen_spec(rng):
     align = rng.choice(["<", ">", "^"]) if (fill or rng.random() < 0.6) else ""
     width = rng.choice(["", "1", "3", "5", "8", "12", "20", "33", "64", "100", "9", "10", "11"])
     typ = rng.choice(["", "", "s"])
+    if fill and align and width and rng.random() < 0.2:
+        width = "0" + width         # with an explicit fill the zero flag changes nothing for str
     return fill + align + width + typ
 
 
